@@ -1,28 +1,38 @@
 --------------------------- MODULE Trace_MemLimit ---------------------------
-(* Validates recorded gc events {ev, size, total, allocated, limit} of one heap against MemLimit:          *)
-(* alloc: the accounted memory after the step is what the event says and stays within the limit (plus, as a *)
-(* named deviation, less than one header above it); oom / free as specified.                               *)
+(* Validates recorded gc events {ev, heap, size, total, allocated, limit} of the limited heap of a run against       *)
+(* MemLimit.  Runs are concatenated, a `base` event (field `before`) starts each one.                                *)
+(*   alloc: the accounted memory after the step is what the event says and is within the limit;                      *)
+(*   oom:   nothing is allocated and the refusal is justified: the block (header + value) would reach the limit;     *)
+(*   free:  the accounted memory shrinks by the block.                                                               *)
+(* Mode = "contract": the property as written (allocated <= limit after every allocation).                            *)
+(* Mode = "report":   named deviation of the code - the value that reports an OutOfMemory error to the program is     *)
+(*                    itself allocated with alloc_ignore_limit: ONE allocation directly after an `oom` event may      *)
+(*                    exceed the limit.                                                                               *)
 EXTENDS Integers, Sequences, TLC, Json, IOUtils
 
-CONSTANT Strict      \* TRUE: the contract (allocated <= limit); FALSE: tolerate the coded overshoot (< limit + header)
+CONSTANT Mode
 
 Rec == ndJsonDeserialize(IOEnv.TRACE)
-VARIABLES allocated, l
-vars == <<allocated, l>>
+VARIABLES allocated, afterOom, l
+vars == <<allocated, afterOom, l>>
 
-Init == allocated = Rec[1].before /\ l = 1
+AllocIdx == {i \in 1..Len(Rec) : Rec[i].ev = "alloc"}
+Hdr == IF AllocIdx = {} THEN 0 ELSE LET i == CHOOSE i \in AllocIdx : TRUE IN Rec[i].total - Rec[i].size
+
+Init == allocated = Rec[1].before /\ afterOom = FALSE /\ l = 1
 Ev == Rec[l]
 Next ==
   /\ l <= Len(Rec)
   /\ l' = l + 1
   /\ CASE Ev.ev = "alloc" ->
             /\ Ev.allocated = allocated + Ev.total
-            /\ (Ev.limit < 0 \/ (IF Strict THEN Ev.allocated <= Ev.limit ELSE Ev.allocated < Ev.limit + (Ev.total - Ev.size)))
-            /\ allocated' = Ev.allocated
-       [] Ev.ev = "oom" -> Ev.allocated = allocated /\ Ev.allocated + Ev.size >= Ev.limit /\ UNCHANGED allocated
-       [] Ev.ev = "free" -> Ev.allocated = allocated - Ev.total /\ allocated' = Ev.allocated
-       [] Ev.ev = "reset" -> allocated' = Ev.before
-       [] OTHER -> UNCHANGED allocated
+            /\ (Ev.limit < 0 \/ Ev.allocated <= Ev.limit \/ (Mode = "report" /\ afterOom))
+            /\ allocated' = Ev.allocated /\ afterOom' = FALSE
+       [] Ev.ev = "oom" -> /\ Ev.allocated = allocated /\ Ev.allocated + Hdr + Ev.size >= Ev.limit
+                           /\ UNCHANGED allocated /\ afterOom' = TRUE
+       [] Ev.ev = "free" -> Ev.allocated = allocated - Ev.total /\ allocated' = Ev.allocated /\ UNCHANGED afterOom
+       [] Ev.ev = "base" -> allocated' = Ev.before /\ afterOom' = FALSE
+       [] OTHER -> UNCHANGED <<allocated, afterOom>>
 Spec == Init /\ [][Next]_vars
 Accepted == LET d == TLCGet("stats").diameter IN
             IF d - 1 = Len(Rec) THEN TRUE ELSE Print(<<"TRACE REJECTED at event", d, Rec[d]>>, FALSE)
